@@ -1398,6 +1398,9 @@ impl VectorEngine {
             let _ = self.store.delete(&key);
         }
 
+        // Drop the collection's cached HNSW index together with its data
+        self.invalidate_hnsw_cache(name);
+
         Ok(())
     }
 
@@ -2350,6 +2353,8 @@ impl VectorEngine {
         for key in keys {
             self.store.delete(&key)?;
         }
+        // Invalidate cached HNSW index since the data changed
+        self.invalidate_hnsw_cache("_default");
         Ok(count)
     }
 
@@ -2936,6 +2941,11 @@ impl VectorEngine {
             })
             .count();
 
+        // Invalidate cached HNSW index since the data changed
+        if deleted > 0 {
+            self.invalidate_hnsw_cache("_default");
+        }
+
         Ok(deleted)
     }
 
@@ -3305,6 +3315,8 @@ impl VectorEngine {
         }
 
         self.store.put(storage_key, tensor)?;
+        // Invalidate cached HNSW index since the data changed
+        self.invalidate_hnsw_cache("_default");
         Ok(())
     }
 
